@@ -149,3 +149,23 @@ package utils
 //@   loop 1 invariant (forall k string :: old(allocated(backing(headers[k])))) ==> (forall k string :: allocated(backing(headers[k])))
 //@   loop 1 invariant forall i int :: 0 <= i && i <= rangeindex ==> header(headers, names[i]) == ""
 //@   loop 1 invariant forall k string :: (forall i int :: 0 <= i && i < len(names) ==> canon(names[i]) != canon(k)) ==> header(headers, k) == old(header(headers, k))
+
+// CopyHeaders appends every value list of src to dst's list for the same key. The functional contract over maps of string
+// slices is assumed here (the element-level frame reasoning for append into shared backing arrays is outside the heap model);
+// /verif/bounded/C06 checks it on all small header maps.
+//@ func CopyHeaders
+//@   props C06 C07
+//@   trusted
+//@   nopanic
+//@   requires dst != nil
+//@   modifies mapof(dst)
+//@   ensures first_values: forall k string :: header(dst, k) == ite(old(header(dst, k)) != "" || (old(in(canon(k), dst)) && old(len(dst[canon(k)])) > 0), old(header(dst, k)), header(src, k))
+//@   ensures values_not_shared_with_source: forall k string :: in(k, dst) && !old(in(k, dst)) && len(dst[k]) > 0 ==> fresh(backing(dst[k]))
+//@   ensures keys: forall k string :: in(k, dst) == (old(in(k, dst)) || in(k, src))
+
+// DumpHTTPRequest serialises a copy of the request's exported fields with encoding/json (outside oxy): assumed to read only.
+//@ func DumpHTTPRequest
+//@   props C06 C07 C15 C20
+//@   trusted
+//@   nopanic
+//@   modifies nothing
